@@ -87,6 +87,22 @@ def check_shape_points(r, c):
                 if q is None or abs(q.x - w[0]) > 1e-6 * max(rx, ry) or abs(q.y - w[1]) > 1e-6 * max(rx, ry):
                     dis.append({"clause": "ShapeWalk", "detail": "%s(%s) = %r, expected %r (rx=%r, ry=%r)" % (form, t, q, w, rx, ry)})
                     break
+    # perimeter of eccentric ellipse SHAPES against the defining integral (trapezoid rule on the periodic integrand: converges
+    # geometrically); error 1e-9 x the smaller radius, with which the pinned tree is within 1e-8 relative
+    for rx, ry in ((10 * r, r), (r, 50 * r), (3 * r, r)):
+        n = 1 << 13
+        ref = sum(math.hypot(rx * math.sin(2 * math.pi * i / n), ry * math.cos(2 * math.pi * i / n)) for i in range(n)) * 2 * math.pi / n
+        for form, fn in (("Ellipse(%g x %g).length()" % (rx, ry), lambda: svg.Ellipse(c[0], c[1], rx, ry).length(error=1e-9 * min(rx, ry))),
+                         ("Path(Ellipse(%g x %g)).length()" % (rx, ry), lambda: svg.Path(svg.Ellipse(c[0], c[1], rx, ry)).length(error=1e-9 * min(rx, ry)))):
+            try:
+                L = fn()
+            except engine.CaseTimeout:
+                raise
+            except Exception as ex:
+                dis.append({"clause": "Raises", "detail": "%s raised %s" % (form, type(ex).__name__)})
+                continue
+            if abs(L - ref) > 2e-7 * ref:
+                dis.append({"clause": "EllipsePerimeter", "detail": "%s = %r, the perimeter integral is %r (relative error %.2g)" % (form, L, ref, abs(L - ref) / ref)})
     return dis
 
 
@@ -161,6 +177,24 @@ def check_walk(case):
     p = svg.Path(d)
     dis = check_points(p, case["exp"], "Path(%r)" % d)
     tot = sum(DIRS[x - 1][2] for x in ds if x)
+    # all t in [0,1]: just inside the ends the point is within (distance walked) of the end point - the cumulative fractions
+    # are floating-point sums and need not add up to exactly 1
+    try:
+        first, last = p.point(0.0), p.point(1.0)
+        for t in (1.0 - 2.0 ** -53, 1.0 - 1e-15, 1.0 - 1e-12, 5e-324, 1e-15):
+            q = p.point(t)
+            # (moves have no length: just after 0 the walk is at the start of the first drawn segment - one of the model's
+            # candidates for t = 0 - while point(0) itself is the path's first point, drawn or not)
+            refs = [last] if t > 0.5 else [first] + [svg.Point(float(rat(c[0])), float(rat(c[1]))) for c in case["exp"][0]]
+            ref = refs[0]
+            walked = (1.0 - t if t > 0.5 else t) * tot
+            if q is None or all(abs(q - r) > walked + 1e-9 * max(1.0, tot) for r in refs):
+                dis.append({"clause": "Walk", "detail": "Path(%r): point(%r) = %r, but point(%s) = %r and the whole path measures %r" % (d, t, q, "1" if t > 0.5 else "0", ref, tot)})
+                break
+    except engine.CaseTimeout:
+        raise
+    except Exception as ex:
+        dis.append({"clause": "Raises", "detail": "Path(%r) point near an end raised %s" % (d, type(ex).__name__)})
     try:
         L = p.length()
         if abs(L - tot) > 1e-9 * tot:
@@ -334,6 +368,16 @@ def check_law(case):
         p = svg.Path(svg.Move(None, svg.Point(x.start)), copy(x))
         if abs(p.length(error=e) - L) > tol:
             dis.append({"clause": "PathLength", "detail": "Path(M, seg).length() = %r, seg.length() = %r" % (p.length(error=e), L)})
+        # "to within the requested error" is about the call, not about the object's past: a path measured coarsely first
+        # answers a finer request like a path that was never measured
+        if not big and obj[0] != "L":
+            p1 = svg.Path(svg.Move(None, svg.Point(x.start)), copy(x))
+            p2 = svg.Path(svg.Move(None, svg.Point(x.start)), copy(x))
+            coarse = p1.length(error=1e-2, min_depth=0)
+            fine_after, fine_fresh = p1.length(error=1e-7), p2.length(error=1e-7)
+            if abs(fine_after - fine_fresh) > 1e-7:
+                dis.append({"clause": "RequestedError", "kind": obj[0], "detail": "Path(M, %s): length(error=1e-7) = %r after length(error=1e-2, min_depth=0) = %r on the same path; a fresh path gives %r" % (
+                    obj, fine_after, coarse, fine_fresh)})
     except engine.CaseTimeout:
         raise
     except Exception as ex:
@@ -341,9 +385,42 @@ def check_law(case):
     return dis
 
 
+def check_ends(case):
+    """Polylines with irrational segment lengths: the cumulative fractions are rounded sums, yet every t in [0,1] has its point -
+    within (distance walked from the end) of the end point for t just inside 0 and 1, and on the right segment in between."""
+    pts = case["pts"]
+    d = "M%d,%d " % tuple(pts[0]) + " ".join("L%d,%d" % tuple(q) for q in pts[1:])
+    lens = [math.hypot(b[0] - a[0], b[1] - a[1]) for a, b in zip(pts, pts[1:])]
+    tot = sum(lens)
+    dis = []
+    for form, p in (("Path(%r)" % d, svg.Path(d)), ("Polyline%r" % (pts,), svg.Polyline(*[tuple(q) for q in pts]))):
+        try:
+            for t in (1.0 - 2.0 ** -53, 1.0 - 2.0 ** -52, 1.0 - 1e-15, 1.0 - 1e-13, 5e-324, 1e-16):
+                q = p.point(t)
+                ref = pts[-1] if t > 0.5 else pts[0]
+                walked = (1.0 - t if t > 0.5 else t) * tot
+                if q is None or math.hypot(q.x - ref[0], q.y - ref[1]) > walked + 1e-9 * max(1.0, tot):
+                    dis.append({"clause": "Walk", "detail": "%s: point(%r) = %r; the end point is %r and the whole path measures %r" % (form, t, q, ref, tot)})
+                    break
+            # the cumulative end of each segment, approached from both sides
+            acc = 0.0
+            for i, L in enumerate(lens[:-1]):
+                acc += L
+                for t in (acc / tot * (1 - 1e-12), acc / tot * (1 + 1e-12)):
+                    q = p.point(t)
+                    if q is None or math.hypot(q.x - pts[i + 1][0], q.y - pts[i + 1][1]) > 1e-9 * max(1.0, tot):
+                        dis.append({"clause": "Walk", "detail": "%s: point(%r) = %r; the corner at that fraction is %r" % (form, t, q, pts[i + 1])})
+                        break
+        except engine.CaseTimeout:
+            raise
+        except Exception as ex:
+            dis.append({"clause": "Raises", "detail": "%s point near an end raised %s" % (form, type(ex).__name__)})
+    return dis
+
+
 def check_case(case):
     k = case["kind"]
-    dis = {"bez": check_bez, "circ": check_circ, "walk": check_walk, "hist": check_hist, "law": check_law}[k](case)
+    dis = {"bez": check_bez, "circ": check_circ, "walk": check_walk, "hist": check_hist, "law": check_law, "ends": check_ends}[k](case)
     for d in dis:
         d["case_kind"] = k
     return {"dis": dis, "nontrivial": True, "class": k, "checked": ["Length", "Walk", "Invariance", "PathLength"]}
@@ -387,8 +464,13 @@ def run(tier, seed):
         run.add_tlc(sres, "query/edit histories of 5-9 operations by TLC -simulate (%d behaviours)" % sres["behaviours"])
         cases += [{"kind": "hist", "arg": v[1], "exp": v[2], "hist": v[3]} for v in vals]
         run.extra["simulated_histories_replayed"] = len(vals)
+        import random
+        rng = random.Random(seed * 1501 + 15)
+        cases.append({"kind": "ends", "pts": [[8, 3], [5, 3], [6, 12], [4, 4]]})
+        for _ in range(400 if tier == "quick" else 20000):
+            cases.append({"kind": "ends", "pts": [[rng.randint(-20, 20), rng.randint(-20, 20)] for _ in range(rng.randint(3, 8))]})
         for case, r in engine.replay("harness.c15", cases, chunk=40):
-            run.record(case, r, key=str((case["kind"], case.get("arg"), case.get("hist"), case.get("obj"))))
+            run.record(case, r, key=str((case["kind"], case.get("arg"), case.get("hist"), case.get("obj"), case.get("pts"))))
             if n % 500 == 5:
                 run.sample({k: v for k, v in case.items()})
             n += 1
